@@ -58,6 +58,9 @@ def case_single(rec, case):
         return
     E0 = c.value
     ks = signing.keyset(rec)
+    if case["n"] % 16 == 7:
+        ks.rotate(r)
+        rec.count("key-rotations-under-the-same-name")
     inp = E0
     if presigned:
         alg1 = r.choice(ALGL)
